@@ -35,6 +35,7 @@ def run(ctx, res):
     r3.rule_commit_binding(S, res)
     r3.rule_bind_id(S, res)
     r3.rule_coins(S, res)
+    r3.rule_replicated_draw(S, res)
     # the claimed check bit of the aShare round arrives with MACs under the recipients' keys and
     # must be MAC-checked before it selects d0/d1 (root of the C07 leak as well)
     mine = [c for c in cs if "fashare ver" in c.labels and {"CMP", "DELTA"} <= c.ing]
